@@ -13,11 +13,11 @@ PKGS = ["cmd/benchstat/internal/benchtab", "benchproc", "benchmath", "benchunit"
 def prepare(run, cid, tier):
     def runner(replay):
         t0 = time.time()
-        V, R = run.VERIF, run.REPO
+        V, R, O = run.VERIF, run.REPO, run.OUT
         env = run.goenv()
-        bdir = os.path.join(V, ".build")
+        bdir = os.path.join(O, ".build")
         os.makedirs(bdir, exist_ok=True)
-        scratch = os.path.join(V, ".scratch", cid)
+        scratch = os.path.join(O, ".scratch", cid)
         os.makedirs(scratch, exist_ok=True)
         for f in glob.glob(os.path.join(scratch, "part-*.json")) + glob.glob(os.path.join(scratch, "*.ref")):
             os.remove(f)
@@ -46,7 +46,7 @@ def prepare(run, cid, tier):
             extra = res["overlay"]
             print("[c15] instrumented:", res["stats"])
         base_env = dict(env)
-        base_env.update({"VERIF_TIER": tier, "VERIF_ROOT": V, "VERIF_KNOWN": os.path.join(V, "known_findings.json"),
+        base_env.update({"VERIF_TIER": tier, "VERIF_ROOT": O, "VERIF_KNOWN": os.path.join(V, "known_findings.json"),
                          "VERIF_REPO": R, "VERIF_C15_REFDIR": scratch})
         base_env.setdefault("VERIF_SEED", "0")
         outputs = []
@@ -85,8 +85,8 @@ def prepare(run, cid, tier):
         rcs.append(pr.returncode)
         outputs.append(pr.stdout)
         if "WARNING: DATA RACE" in pr.stdout:
-            os.makedirs(os.path.join(V, "replays", cid), exist_ok=True)
-            rp = os.path.join(V, "replays", cid, "race-report.txt")
+            os.makedirs(os.path.join(O, "replays", cid), exist_ok=True)
+            rp = os.path.join(O, "replays", cid, "race-report.txt")
             open(rp, "w").write(pr.stdout)
             print(f"VIOLATION property={cid} replay={rp}")
             print("  the free-running -race pass reported a data race")
@@ -99,7 +99,7 @@ def prepare(run, cid, tier):
 
 def build_tags(run, cid, tags, extra, suffix, race=False):
     cfg = run.CHECKS[cid]
-    bdir = os.path.join(run.VERIF, ".build")
+    bdir = os.path.join(run.OUT, ".build")
     ov = os.path.join(bdir, f"{cid}{suffix}.overlay.json")
     repl = run.overlay_for(cid, extra)
     with open(ov, "w") as fh:
